@@ -220,6 +220,60 @@ func c02Workload[T any](rep *Report, codec Codec[T], api string, depth int, shap
 	case "tree":
 		r = withWatchdog(func() (any, error) { return ra.Tree(context.Background(), depth) })
 		want = (1 << (depth + 1)) - 1
+	case "stalled-closure":
+		// a closure of A is still running (blocked) while A starts and finishes other closure-carrying calls,
+		// and while B invokes other closures of A: none of that may wait for the stalled closure
+		release := make(chan struct{})
+		started := make(chan struct{})
+		stalledDone := make(chan error, 1)
+		go func() {
+			_, err := ra.WithClosure(context.Background(), 1, false, func(ctx context.Context, i int, s string) (string, error) {
+				close(started)
+				<-release
+				return "late", nil
+			})
+			stalledDone <- err
+		}()
+		select {
+		case <-started:
+		case <-time.After(watchdog):
+		}
+		r = withWatchdog(func() (any, error) {
+			for k := 0; k < 3; k++ {
+				out, err := ra.WithClosure(context.Background(), 2, k%2 == 0, func(ctx context.Context, i int, s string) (string, error) { return s, nil })
+				if err != nil {
+					return 0, err
+				}
+				if len(out) != 2 || out[0] != "B-arg-0" {
+					return 0, fmt.Errorf("closure results %v", out)
+				}
+			}
+			// a closure whose body itself passes a closure onwards
+			out, err := ra.WithClosure(context.Background(), 1, false, func(ctx context.Context, i int, s string) (string, error) {
+				in, err := ra.WithClosure(ctx, 1, false, func(ctx context.Context, i int, s string) (string, error) { return "inner:" + s, nil })
+				if err != nil {
+					return "", err
+				}
+				return in[0], nil
+			})
+			if err != nil {
+				return 0, err
+			}
+			if out[0] != "inner:B-arg-0" {
+				return 0, fmt.Errorf("nested closure result %v", out)
+			}
+			return depth, nil
+		})
+		want = depth
+		close(release)
+		select {
+		case err := <-stalledDone:
+			if err != nil {
+				rep.addViolation("property", key+":stalled-closure-result", fmt.Sprintf("the stalled closure's call failed after release: %v", err), desc)
+			}
+		case <-time.After(watchdog):
+			rep.addViolation("property", key+":stalled-closure-hang", "the call whose closure was stalled did not complete after the closure was released", desc)
+		}
 	case "closure-in-nested":
 		r = withWatchdog(func() (any, error) {
 			out, err := rb.WithClosure(context.Background(), 3, true, func(ctx context.Context, i int, s string) (string, error) {
@@ -297,6 +351,8 @@ func runC02(rep *Report, tier string, seed int64) {
 				c02Workload(rep, jsonRaw(), api, d, "tree", st)
 			}
 			c02Workload(rep, jsonRaw(), api, 2, "closure-in-nested", st)
+			c02Workload(rep, jsonRaw(), api, 1, "stalled-closure", st)
+			c02Workload(rep, cborRaw(), api, 1, "stalled-closure", st)
 		}
 	}
 	_ = seed
@@ -390,6 +446,18 @@ func c10Workload[T any](rep *Report, codec Codec[T], api string, msgs []string) 
 			rep.addViolation("property", key+":closure-call", fmt.Sprintf("WithClosure failed: %+v", r), d)
 		} else if got := r.val.([]string)[0]; got != "ERR:"+m {
 			rep.addViolation("property", key+":closure-message", fmt.Sprintf("closure error %q arrived at the invoking handler as %q", m, got), d)
+		}
+	}
+	// a closure returning a value together with an error: both reach the invoking handler
+	for _, rem := range []Remote{ra, rb} {
+		rep.Evaluations++
+		r := withWatchdog(func() (any, error) {
+			return rem.ClosureResult(context.Background(), 3, func(ctx context.Context, k int) ([]int, error) {
+				return []int{9, 8}, fmt.Errorf(" partial: %d ", k)
+			})
+		})
+		if !r.ok || r.err != nil || r.val.(string) != "[9 8]| partial: 3 " {
+			rep.addViolation("property", "C10:"+api+":closure-value+message", fmt.Sprintf("closure returned ([9 8], \" partial: 3 \"), the invoking handler got %+v", r), desc)
 		}
 	}
 	// an application-level error never terminates the link
